@@ -28,6 +28,27 @@ def wide_enough(spec):
     return False
 
 
+def order_sensitive(case):
+    """keep only projects whose outputs depend (in the last bits) on the ORDER in which the transfers of the parameter set are stored:
+    the same inputs with the per-transfer dictionaries reversed give another digest.  Such a project exposes any iteration order that
+    varies between processes."""
+    from vlib import simcase, canon
+    import sciris as sc
+
+    try:
+        b = c08.build_project(case["specs"][0], (case.get("scens") or [None])[0], (case.get("partial_init") or [None])[0])
+        res, _ = simcase.two_step(b["P"], b["ps"], b["progset"], b["instructions"])
+        d0 = canon.result_digest(res)
+        ps2 = sc.dcp(b["ps"])
+        for name in list(ps2.transfers.keys()):
+            items = list(ps2.transfers[name].items())
+            ps2.transfers[name] = type(ps2.transfers[name])(reversed(items))
+        res2, _ = simcase.two_step(b["P"], ps2, b["progset"], b["instructions"])
+        return canon.result_digest(res2) != d0
+    except Exception:
+        return False
+
+
 @hypothesis.seed(777)
 @settings(max_examples=3000, database=None, deadline=None, suppress_health_check=list(HealthCheck), phases=[Phase.generate])
 @given(c08.cases(dict(c08.PROFILE), 1.0))
@@ -35,6 +56,8 @@ def test(case):
     if len(kept) >= K or not wide_enough(case["specs"][0]) or len(json.dumps(case)) > 80000:
         return
     case["ops"] = case["ops"][:3]
+    if not order_sensitive(case):
+        return
     try:
         c08.check(case)
     except (runner.Discard, runner.Violation):
